@@ -44,9 +44,9 @@ for pid in [f"C{i:02d}" for i in range(1, 21) if i != 19]:
 m = dict(
     version=1,
     setup_cmd=("cd /verif/harness && CARGO_NET_OFFLINE=true cargo build --release --offline --features hooks && "
-               "CARGO_NET_OFFLINE=true cargo build --release --offline --no-default-features --features hooks --target-dir target-plain"),
+               "CARGO_NET_OFFLINE=true cargo build --profile plain --offline --no-default-features --features hooks --target-dir target-plain"),
     hooks=dict(guard="verif_hooks (cargo feature of fn_graph)",
-               enable="the harness depends on fn_graph by path with features interruptible, graph_info and (harness feature `hooks`) verif_hooks; every check runs `cargo build --release --offline --features hooks` in /verif/harness first, and a second build `--no-default-features --features hooks --target-dir target-plain` of the same harness against fn_graph with its default features plus verif_hooks (no interruptible)",
+               enable="the harness depends on fn_graph by path with features interruptible, graph_info and (harness feature `hooks`) verif_hooks; every check runs `cargo build --release --offline --features hooks` in /verif/harness first, and a second build `--profile plain --no-default-features --features hooks --target-dir target-plain` of the same harness against fn_graph with its default features plus verif_hooks (no interruptible; release with debug assertions on)",
                baseline_off_cmd="cd /repo && cargo test --workspace --no-fail-fast --offline",
                source_commits=["427534a"], add_only=True),
     engines=[dict(name="tla-trace", path="/verif/vcheck", serves_properties=[c["property_id"] for c in checks],
